@@ -471,6 +471,15 @@ def corr_large(ctx, cases):
                             blocks=[0, 1 << 15, 4093, len(body) + 1])
 
 
+    for tail in (b"", b"--"):
+        content = b"a" * MAXLINE + b"--" + boundary + tail
+        body = encode(boundary, [("big", "f.bin", None, content),
+                                 ("t", None, None, b"end")])
+        add_parse_cases(ctx, cases, body, ctv, len(body), False,
+                        "large-dash-boundary-at-cut", body_term=rle(body),
+                        blocks=[0, 1 << 15])
+
+
 def corr_units(ctx, cases):
     """read_lines_to_outerboundary, valid_boundary, parse_header, readers and
     the encoder on their own"""
@@ -751,6 +760,16 @@ def monitor(ctx):
                 monitor_case(ctx, boundary, parts, True, True,
                              filename is not None, 0,
                              "large-%s" % shape, blocks=blocks)
+    # a dash-boundary right behind a 65536-byte cut is not at a line start
+    for lead in ((MAXLINE,) if ctx.quick else (MAXLINE, 2 * MAXLINE)):
+        for tail in (b"", b"--", b" \t"):
+            content = b"a" * lead + b"--" + boundary + tail
+            for filename in ("up.bin", None):
+                parts = [("pre", None, None, b"1"),
+                         ("big", filename, None, content),
+                         ("post", None, None, b"2")]
+                monitor_case(ctx, boundary, parts, True, True, False, 0,
+                             "dash-boundary-at-cut", blocks=[0, 1 << 15, 4093])
     # a file factory whose product is an io.BytesIO
     for size in (BUFSIZE, BUFSIZE + 1, 3 * BUFSIZE):
         content = (b"line\r\n" * (size // 6 + 1))[:size]
@@ -769,6 +788,14 @@ def monitor(ctx):
         if form.list[0].value != content:
             ctx.violation("file-content-differs-bytesio-factory",
                           {"size": size})
+        elif calls != ["x.bin"] and not (
+                size > BUFSIZE and len(calls) > 1 and
+                set(calls) == {"x.bin"}):
+            # anything but the known class: in-memory product, part larger
+            # than BUFSIZE, the factory called again with the same name
+            ctx.violation("file-factory-calls", {
+                "content_size": size, "factory_calls": calls[:10],
+                "product": "io.BytesIO"})
         elif calls != ["x.bin"]:
             ctx.violation("factory-recalled-when-product-is-bytesio", {
                 "content_size": size, "factory_calls": len(calls),
